@@ -58,6 +58,76 @@ def _guard_scope(ctx, b):
     return locks, drops
 
 
+def _id_search(ctx, b):
+    """`repeat_with(|| gen_range(R)).find(|id| !map.contains_key(id))`: -> (find call, producer closure, predicate closure)
+    or None."""
+    F = ctx.facts
+    T = ctx.tracer
+    for t in b.calls("std::iter::Iterator::find"):
+        pred = None
+        for a in T.origins_of_arg(t, 1):
+            if a.kind == "agg" and a.detail and a.detail.startswith("closure ") and F.has(a.detail[len("closure "):]):
+                pred = F.body(a.detail[len("closure "):])
+        prod = None
+        for o in T.origins_of_arg(t, 0):
+            if o.kind == "call" and (o.term.callee or "").endswith("iter::repeat_with"):
+                for a in T.origins_of_arg(o.term, 0):
+                    if a.kind == "agg" and a.detail and a.detail.startswith("closure ") and F.has(a.detail[len("closure "):]):
+                        prod = F.body(a.detail[len("closure "):])
+        if pred is not None and prod is not None:
+            return t, prod, pred
+    return None
+
+
+def _probe_then_insert(ctx, b, lock, drops):
+    """Second accepted spelling of 'insert only into a vacant id': under the one guard, ids are drawn until one is found
+    for which `contains_key` is false, and that id is inserted (and returned).  None if the function is not of this
+    form (the entry() form is then expected)."""
+    F = ctx.facts
+    T = ctx.tracer
+    cfg = cfg_of(b)
+    srch = _id_search(ctx, b)
+    ins = list(b.calls("std::collections::HashMap::<K, V, S, A>::insert"))
+    if srch is None or len(ins) != 1 or list(b.calls("std::collections::HashMap::<K, V, S, A>::entry")):
+        return None
+    find, prod, pred = srch
+    out = []
+    other = [t for cb in [b] + F.closures_of(b.path) for t in cb.calls()
+             if re.search(r"HashMap::<K, V, S, A>::(get_mut|extend|retain|clear|remove|drain|try_insert)$", t.callee or "")]
+    if other:
+        out.append(violated("C16.R2", "store_error:overwrite", other[0].where(), "store_error modifies the table other than by inserting the vacant id: %s" % other[0].callee))
+    # the predicate is `!map.contains_key(id)` on the closure's own parameter
+    ck = list(pred.calls("std::collections::HashMap::<K, V, S, A>::contains_key"))
+    ro = T.return_origins(pred)
+    negated = bool(ro) and all(o.kind == "expr" and o.stmt is not None and o.stmt.rv.get("k") == "un" and o.stmt.rv.get("op") == "Not" for o in ro)
+    okpred = len(ck) == 1 and negated and all(x.kind == "param" for x in T.origins_of_arg(ck[0], 1))
+    # the key inserted (and returned) is what find() yielded
+    def from_find(os_, depth=0):
+        # through the unwrap/expect of the Option that an endless iterator's find() yields
+        if not os_ or depth > 3:
+            return False
+        for o in os_:
+            if o.kind == "call" and o.term is find:
+                continue
+            if o.kind == "call" and (o.term.callee or "").rsplit("::", 1)[-1] in ("expect", "unwrap", "unwrap_unchecked") and from_find(T.origins_of_arg(o.term, 0), depth + 1):
+                continue
+            return False
+        return True
+    ko = T.origins_of_arg(ins[0], 1)
+    okkey = from_find(ko)
+    okret = from_find(T.return_origins(b))
+    early = [d for d in drops if ins[0].bb in cfg.reachable(d) or find.bb in cfg.reachable(d)]
+    after_lock = lock.target is not None and find.bb in cfg.reachable(lock.target) and ins[0].bb in cfg.reachable(find.target if find.target is not None else find.bb)
+    if okpred and okkey and okret and not early and after_lock:
+        out.append(holds("C16.R2", "store_error:entry-insert", ins[0].where(), "ids are drawn until contains_key is false and that id is inserted, all under one guard; returned id = inserted key"))
+        out.append(holds("C16.R2", "store_error:occupied", find.where(), "occupied id -> find() draws again"))
+    else:
+        out.append(violated("C16.R2", "store_error:entry-insert", ins[0].where(),
+                            "vacancy-predicate=%s inserted-key-is-the-found-id=%s returned-id-is-the-found-id=%s guard-dropped-early=%s search-and-insert-after-lock=%s"
+                            % (okpred, okkey, okret, bool(early), after_lock)))
+    return out
+
+
 def r2_one_critical_section(ctx):
     F = ctx.facts
     T = ctx.tracer
@@ -81,6 +151,10 @@ def r2_one_critical_section(ctx):
     entry = list(b.calls("std::collections::HashMap::<K, V, S, A>::entry"))
     ins = list(b.calls("std::collections::hash_map::VacantEntry::<'a, K, V, A>::insert"))
     bad_ins = [t for t in b.calls() if re.search(r"HashMap::<K, V, S, A>::(insert|get_mut|extend|retain|clear|remove|drain|try_insert)$", t.callee or "")]
+    formb = _probe_then_insert(ctx, b, lock, drops)
+    if formb is not None:
+        out.extend(formb)
+        return out
     if bad_ins:
         out.append(violated("C16.R2", "store_error:overwrite", bad_ins[0].where(), "store_error modifies the table other than through a vacant entry: %s" % bad_ins[0].callee))
     if len(entry) != 1 or len(ins) != 1:
@@ -133,6 +207,9 @@ def r3_id_range(ctx):
     b = F.body(SE)
     gr = list(b.calls("rand::Rng::gen_range"))
     entry = list(b.calls("std::collections::HashMap::<K, V, S, A>::entry"))
+    srch = _id_search(ctx, b) if not gr else None
+    if srch is not None:
+        gr = list(srch[1].calls("rand::Rng::gen_range"))
     if len(gr) != 1:
         return [violated("C16.R3", "store_error:gen_range", b.where(), "expected one gen_range call")]
     ro = T.origins_of_arg(gr[0], 1)
@@ -161,6 +238,15 @@ def r3_id_range(ctx):
     # the id used as key is the gen_range value, untouched
     ko = T.origins_of_arg(entry[0], 1) if entry else []
     okk = bool(ko) and all(o.kind == "call" and o.term is gr[0] for o in ko)
+    if srch is not None:
+        # the producer closure returns the drawn value untouched, and the key inserted is what find() yielded (R2)
+        pro = T.return_origins(srch[1])
+        ins = list(b.calls("std::collections::HashMap::<K, V, S, A>::insert"))
+        def found(os_, depth=0):
+            return bool(os_) and depth < 4 and all(
+                o.kind == "call" and (o.term is srch[0] or ((o.term.callee or "").rsplit("::", 1)[-1] in ("expect", "unwrap", "unwrap_unchecked")
+                                                            and found(T.origins_of_arg(o.term, 0), depth + 1))) for o in os_)
+        okk = bool(pro) and all(o.kind == "call" and o.term is gr[0] for o in pro) and len(ins) == 1 and found(T.origins_of_arg(ins[0], 1))
     if ok and okk:
         out.append(holds("C16.R3", "store_error:id-range", gr[0].where(), "%s: every id is below -4095" % why))
     else:
